@@ -188,6 +188,7 @@ TriOf(b) == IF b THEN "T" ELSE "F"
 SolveSearch(x, doc) ==
   LET v == DFind(doc, x.f) IN
   IF IsNone(v) THEN "M"
+  ELSE IF x.c /\ ~AllTextKnown(v) THEN "U"              \* Display of a long float is not modelled
   ELSE IF HasTextE(v, x.c) THEN TriOf(SearchStr(x.s, StrCast(v)))
   ELSE IF v.t = "A" THEN TriOf(\E i \in DOMAIN v.vs : HasTextE(v.vs[i], x.c) /\ SearchStr(x.s, StrCast(v.vs[i])))
   ELSE "M"
